@@ -1,4 +1,60 @@
-(* C03 - placeholder statement file, replaced below *)
-From VJ Require Import Model.Str.
-Theorem C03_placeholder : True. Proof. exact I. Qed.
-Print Assumptions C03_placeholder.
+(* C03 - component children become the slots the source denotes. Statements only.
+
+   Proved for every child list of a component host, every v-slots form and both settings of
+   enableObjectSlots / optimize: the third argument of the vnode call is the slots value
+   [check_children_with] describes - a lazily evaluated `default` slot returning the children in
+   order, the function child itself, the object literal itself, v-slots entries beside
+   `default`, and for a single identifier / call child the runtime decision
+   `_isSlot(x) ? x : { default: () => [x] }` with a call evaluated once into a temporary.
+   Relative to the lowering / check of nested elements ([rec_ok], the induction hypothesis of
+   the recursive statement) and to a visitor state without a pending assignment target (the
+   capture of a reassigned identifier belongs to C06/C10).  Whether `_isSlot` selects the right
+   branch for each runtime value kind is Vue-runtime behaviour: the helper's text is compared
+   with the Babel plugin's by the translator (tools/gen_tables.py), not proved. *)
+From VJ Require Import Model.Str Model.Json Model.Ast Model.State Model.Text Model.Lower
+  Spec.JsxText Spec.OutViews Spec.Site Spec.SiteCheck Lemmas.ChildProofs.
+
+Theorem C03_slots : forall E rec chk cs s s2 vslots,
+  rec_ok rec chk cs -> forallb child_ok cs = true ->
+  assign_left s2 = None ->
+  check_children_with E chk true vslots cs
+    (fst (finish_children E (fst (lower_children_with E rec cs s)) true vslots s2)) = [].
+Proof. intros. apply children_refine; auto. intros; discriminate. Qed.
+Print Assumptions C03_slots.
+
+(* the shapes, spelled out: what [check_children_with] accepted above *)
+Theorem C03_call_child_once : forall E e_ctx f args t s,
+  o_object_slots (e_opts E) = true -> assign_left s = None ->
+  let e := Call false e_ctx f args t in
+  exists tmp flag,
+    fst (finish_children E [Elem false e] true None s)
+    = Cond (mk_call slot_helper_ident [Assign (s_ "=") (Paren tmp) e]) tmp
+           (wrap_children E [Elem false tmp] flag None)
+    /\ (exists sym c, tmp = Ident sym c false /\ is_gen_ctx c = true).
+Proof.
+  intros E e_ctx f args t s OS AL. cbv zeta.
+  rewrite finish_unfold. destruct (popped E s) as [flag s3] eqn:EP. rewrite OS.
+  assert (AL3 : assign_left s3 = None).
+  { rewrite <- AL, <- (popped_assign E s), EP. reflexivity. }
+  pose proof (slot_ident_props s3) as SP.
+  destruct (generate_unique_slot_ident s3) as [slot s4].
+  destruct SP as [GEN AL4]. rewrite AL3 in AL4. rewrite (build_iife_none _ _ AL4).
+  exists slot, flag. split; [reflexivity|exact GEN].
+Qed.
+Print Assumptions C03_call_child_once.
+
+(* without enableObjectSlots a single identifier or call child is always wrapped *)
+Theorem C03_always_wrapped_when_off : forall E e s,
+  o_object_slots (e_opts E) = false -> assign_left s = None ->
+  (match e with Ident _ _ _ | Call false _ _ _ _ => True | _ => False end) ->
+  exists flag, fst (finish_children E [Elem false e] true None s) = wrap_children E [Elem false e] flag None.
+Proof.
+  intros E e s OS AL SH. rewrite finish_unfold. destruct (popped E s) as [flag s3] eqn:EP.
+  assert (AL3 : assign_left s3 = None).
+  { rewrite <- AL, <- (popped_assign E s), EP. reflexivity. }
+  exists flag. destruct e; try contradiction SH.
+  - rewrite (build_iife_none _ _ AL3), OS. reflexivity.
+  - match goal with |- context [Call ?b _ _ _ _] => destruct b; [contradiction SH|] end.
+    rewrite OS. reflexivity.
+Qed.
+Print Assumptions C03_always_wrapped_when_off.
